@@ -95,9 +95,11 @@ Step(op, s, i, v, p, kd) ==
     \* ---- operations whose argument is the container itself or one of its own elements (property C04 asks that they
     \*      behave as if the argument had been copied first); never generated by the C03 check
     [] op = "swapself" -> {Out(s, i, q, NoRes, NoB)}
-    [] op = "assignself" /\ LA -> {Out(s, i, FreshCopy(q), NoRes, NoB)}
+    [] op = "assignself" /\ LA -> {Out(s, i, q, NoRes, NoB), Out(s, i, FreshCopy(q), NoRes, NoB)}      \* kept or re-created
     [] op = "appendself" /\ LA -> {Out(s, i, q \o FreshCopy(q), NoRes, NoB)}
     [] op = "prependself" /\ K = "list" -> {Out(s, i, FreshCopy(q) \o q, NoRes, NoB)}
+    [] op = "insertself" /\ K = "list" /\ p \in 0..n ->
+         {Out(s, i, InsertSeq(q, p, FreshCopy(q)), PosOrEnd(InsertSeq(q, p, FreshCopy(q)), p + 1), NoB)}
     [] op = "appendown" /\ LA /\ p \in 0..(n - 1) -> {Out(s, i, q \o <<El(q[p + 1].v, Fresh)>>, n + 1, NoB)}
     [] op = "insertown" /\ K = "list" /\ p \in 0..n /\ v \in 0..(n - 1) ->                   \* insert(pos p, own element v)
          {Out(s, i, InsertSeq(q, p, <<El(q[v + 1].v, Fresh)>>), p + 1, NoB)}
@@ -173,7 +175,7 @@ Init == st = Init0 /\ last = <<"init", 0, 0, 0, NoRes, NoB>>
 Ops0 == {"clear", "swap", "copy", "assign", "rmfront", "rmback", "appendall", "prependall", "front", "back", "eq",
          "swapself", "assignself", "appendself", "prependself"}
 OpsV == {"append", "prepend", "rmval", "find"}
-OpsP == {"rmat", "rmidx", "rmref", "resized", "reserve", "insertall", "appendown"}
+OpsP == {"rmat", "rmidx", "rmref", "resized", "reserve", "insertall", "appendown", "insertself"}
 OpsVP == {"insert", "resize", "appendn"}
 Next == \E i \in 1..2 :
           \/ \E kd \in Kinds : Do("new", i, 0, 0, kd)
